@@ -46,21 +46,40 @@ fn image_from(cfg: &Cfg, log: &[Rec], keep: &dyn Fn(usize) -> bool) -> DevState 
 }
 
 fn check_image(cfg: &Cfg, st: DevState, want: &[u8], what: &str) -> Option<(String, String)> {
+    check_image_at(cfg, st, want, what, &["f"])
+}
+
+/// `names`: the names under which the flushed file may be found (two while a rename of it is in flight)
+fn check_image_at(cfg: &Cfg, st: DevState, want: &[u8], what: &str, names: &[&str]) -> Option<(String, String)> {
     // independent decode
     let dec = sess::decode_dev(&st, cfg, &[]);
-    let dec_verdict = match &dec {
-        Ok(d) => match d.find_entry("/f") {
+    let judge = |d: &harness::decoder::Decoded, name: &str| -> Option<String> {
+        match d.find_entry(&format!("/{name}")) {
             Some(e) if !e.is_dir() => {
                 if e.size as usize != want.len() {
                     Some(format!("decoded size {} != flushed size {}", e.size, want.len()))
                 } else if e.content.as_deref() != Some(want) {
                     Some("decoded content differs from flushed content".to_string())
+                } else if !e.chain_ok {
+                    Some("the cluster chain of the flushed file is broken".to_string())
                 } else {
-                    None
+                    // the clusters of the flushed file are marked used: nothing else can be given them later
+                    let tag = format!("of file:/{name} ");
+                    d.findings.iter().find(|f| f.sig.starts_with("I1/") && f.msg.contains(&tag)).map(|f| format!("allocation of the flushed file: {}", f.msg))
                 }
             }
-            _ => Some("file f not found by the independent decoder".to_string()),
-        },
+            _ => Some(format!("file {name} not found by the independent decoder")),
+        }
+    };
+    let dec_verdict = match &dec {
+        Ok(d) => {
+            let vs: Vec<Option<String>> = names.iter().map(|n| judge(d, n)).collect();
+            if vs.iter().any(Option::is_none) {
+                None
+            } else {
+                vs.into_iter().next().flatten()
+            }
+        }
         Err(e) => Some(format!("crash image does not decode: {e}")),
     };
     if let Some(m) = dec_verdict {
@@ -72,8 +91,17 @@ fn check_image(cfg: &Cfg, st: DevState, want: &[u8], what: &str) -> Option<(Stri
     let r = sess::guarded(|| -> Result<Vec<u8>, String> {
         let fs = sess::mount(MemDev::new(st.clone()), cfg, &ctr).map_err(|e| format!("remount failed: {:?}", sess::ek(e)))?;
         let res = (|| {
-            let mut f = fs.root_dir().open_file("f").map_err(|e| format!("open f failed: {:?}", sess::ek(e)))?;
-            sess::read_all(&mut f, 1 << 24).map_err(|e| format!("read f failed: {e:?}"))
+            let mut last = Err("no name".to_string());
+            for name in names {
+                last = (|| {
+                    let mut f = fs.root_dir().open_file(name).map_err(|e| format!("open {name} failed: {:?}", sess::ek(e)))?;
+                    sess::read_all(&mut f, 1 << 24).map_err(|e| format!("read {name} failed: {e:?}"))
+                })();
+                if matches!(&last, Ok(d) if d == want) {
+                    break;
+                }
+            }
+            last
         })();
         drop(fs);
         res
@@ -160,7 +188,14 @@ impl Checker for C14 {
             }
         }
         let Some(p) = p else { return v };
-        let Some(fnode) = ex.model.nodes.values().find(|n| n.given == "f") else { return v };
+        // the flushed file = the node behind handle 0 at the durability point. It may have been renamed (f -> r)
+        // since: a rename is not itself durable, so from then on the file may be found under either name
+        let nid_at = |i: usize| ex.handle_nids.get(i).and_then(|a| a[0]);
+        let nid = if matches!(ops[p], Op::DropFile { .. }) { if p == 0 { None } else { nid_at(p - 1) } } else { nid_at(p) };
+        let Some(nid) = nid else { return v };
+        let Some(fnode) = ex.model.nodes.get(&nid) else { return v };
+        let renamed = fnode.given == "r";
+        let names: Vec<&str> = if renamed { vec!["r", "f"] } else { vec!["f"] };
         let want = fnode.data.clone();
         self.ctr.durable_nodes.fetch_add(1, Ordering::Relaxed);
         let log = &ex.log;
@@ -172,7 +207,7 @@ impl Checker for C14 {
         let mut seen = std::collections::BTreeSet::new();
         let mut run = |what: &str, st: DevState, v: &mut Vec<(String, String)>, detail: String| {
             self.ctr.crash_images.fetch_add(1, Ordering::Relaxed);
-            let r = check_image(cfg, st, &want, what);
+            let r = check_image_at(cfg, st, &want, what, &names);
             *self.ctr.classes.lock().unwrap().entry(format!("{what}:{}", if r.is_some() { "LOST" } else { "intact" })).or_default() += 1;
             if let Some((sig, msg)) = r {
                 if seen.insert(sig.clone()) {
@@ -235,6 +270,17 @@ impl Checker for C14 {
                     continue; // panics under faults belong to C09
                 }
                 let failed_then_ok = matches!(fx.outs.get(n - 1), Some(Err(_))) && matches!(fx.outs.get(n), Some(Ok(_)));
+                // a flush that returned Ok although one of its device calls failed is a durability point like any other
+                let ok_despite_fault = matches!(fx.outs.get(n - 1), Some(Ok(_))) && fx.fired_early.is_some();
+                if ok_despite_fault {
+                    let flog = &fx.log;
+                    let j = flog.iter().rposition(|r| r.op_idx == last).map_or(0, |x| x + 1);
+                    let detail = format!("device call {k}/{calls} of the flush failed, the flush returned Ok all the same");
+                    run("flush-ok-despite-storage-fault-prefix", image_from(cfg, flog, &|i| i < j), &mut v, detail.clone());
+                    let barrier = flog[..j].iter().rposition(|r| r.kind == Kind::Flush).map_or(0, |b| b + 1);
+                    run("flush-ok-despite-storage-fault-epoch-loss", image_from(cfg, flog, &|i| i < barrier), &mut v, detail);
+                    continue;
+                }
                 if !failed_then_ok {
                     continue;
                 }
@@ -271,7 +317,9 @@ pub fn alphabet(cs: u32) -> Vec<Op> {
         Op::Seek { h: 0, pos: harness::sess::SeekSpec::Start(1) },
         Op::DropFile { h: 0 },
         Op::OpenFile { base: r, path: s("f"), keep: Some(0) },
-        // later operations that do not modify f
+        Op::Truncate { h: 0 },
+        // later operations that do not modify f; it may be renamed (found under either name while that is in flight)
+        Op::Rename { base: r, src: s("f"), dst_base: r, dst: s("r") },
         Op::CreateFile { base: r, path: s("g"), keep: Some(1) },
         Op::WriteAll { h: 1, len: cs + 1 },
         Op::Truncate { h: 1 },
@@ -297,6 +345,15 @@ pub fn specs(tier: &str) -> Vec<ExpSpec> {
         let r = DirRef::Root;
         let prefix = vec![Op::CreateFile { base: r, path: "f".into(), keep: Some(0) }, Op::WriteAll { h: 0, len: 512 }, Op::Flush { h: 0 }];
         v.push(ExpSpec::new(c2, alphabet(512), if th { 5 } else { 4 }).with_prefix(prefix));
+    }
+    // storage that cuts every transfer at its own 7-byte block boundaries (the FAT copies are split differently)
+    {
+        let mut c = vol::tiny_with(FatType::Fat12, 12, 16);
+        c.name = format!("{}-prefilled-blk7", c.name);
+        c.short = harness::dev::Short::Block(7);
+        let r = DirRef::Root;
+        let prefix = vec![Op::CreateFile { base: r, path: "f".into(), keep: Some(0) }, Op::WriteAll { h: 0, len: 512 }, Op::Flush { h: 0 }];
+        v.push(ExpSpec::new(c, alphabet(512), if th { 4 } else { 3 }).with_prefix(prefix));
     }
     let _ = new_dev;
     v
